@@ -397,10 +397,112 @@ for n1 in range(1, NL + 1):
 if mroots == 0:
     ck.inconclusive.append('vacuous: merkle_root never returned')
 
+# ------------------------------------------------------------------ B4 a commit is one critical section
+# TensorChain::commit executed with its collaborators stubbed (workspace bookkeeping, conflict detection, applying the writes,
+# state root, block building, Chain::append each succeed or fail symbolically and record when they ran); the store snapshot and
+# its restore are opaque.  Decided: the pre-image is taken, the writes are applied, the block is built and appended - or the
+# pre-image is restored - under ONE hold of a commit-wide lock, so that no other commit can run in between (a restore would
+# wipe it, or this block's state root would include its writes).
+ck.declare('B4_commit_is_one_critical_section', 'TensorChain::commit with 1 operation, auto-merge off; applying the writes, the state root and Chain::append each succeed or fail',
+           'on every path that takes a pre-image: a commit-wide lock is acquired before the pre-image and released only after the block was appended or the pre-image restored; '
+           'Ok => appended, nothing restored; Err after the pre-image => restored')
+
+
+def note(kind, ret):
+    def f(c):
+        held = [n for n, lk in c.st.env.get('commit_locks', {}).items() if getattr(lk, 'held', [])]
+        c.st.notes.append((kind, tuple(held)))
+        return ret(c) if callable(ret) else ret
+    return f
+
+
+def sym_result(name, okv, ty):
+    def f(c):
+        if c.st.branch(z3.Bool(name + '_ok'), name):
+            return _ok(okv(c) if callable(okv) else okv, ty)
+        return _err(Opaque('ChainError'), ty)
+    return f
+
+
+def m_any_mutex_lock(c):
+    # every Mutex / RwLock taken during commit is tracked by the field path it was reached through
+    from mirsym.models_std import m_lock_w
+    lk = deref(c.st, c.args[0])
+    name = getattr(lk, 'lazy', None) or str(id(lk))
+    c.st.env.setdefault('commit_locks', {})[name] = lk
+    c.st.notes.append(('lock', name))
+    return m_lock_w(c)
+
+
+b4_saved = dict(ex.extra_models)
+ex.extra_models.update({
+    'TransactionWorkspace::mark_committing': lambda c: _ok(UNIT, 'Result<(), ChainError>'),
+    'TransactionWorkspace::operations': lambda c: Seq('Transaction', [Struct('Transaction', {}, lazy='op0')]),
+    'TransactionWorkspace::mark_committed': lambda c: UNIT, 'TransactionWorkspace::id': lambda c: Int(U64(7), False),
+    'TransactionManager::remove': lambda c: UNIT, 'TensorChain::fail_workspace': note('fail_workspace', UNIT),
+    'TensorChain::detect_conflicts': lambda c: _ok(UNIT, 'Result<(), ChainError>'),
+    'TransactionWorkspace::to_delta_vector': lambda c: Opaque('DeltaVector'), 'TransactionWorkspace::delta_embedding': lambda c: Seq('f32', []),
+    'TensorStore::snapshot_bytes': note('snapshot', lambda c: _ok(Seq('u8', []), 'Result<Vec<u8>, SnapshotError>')),
+    'TensorStore::restore_from_bytes': note('restore', lambda c: _ok(UNIT, 'Result<(), SnapshotError>')),
+    'TensorChain::apply_operations_to_store': note('apply', sym_result('apply', UNIT, 'Result<(), ChainError>')),
+    'compute_state_root': note('state_root', sym_result('root', lambda c: Seq('u8', [Int(z3.BitVecVal(0, 8), False)] * 32), 'Result<[u8; 32], ChainError>')),
+    'state_root::compute_state_root': note('state_root', sym_result('root', lambda c: Seq('u8', [Int(z3.BitVecVal(0, 8), False)] * 32), 'Result<[u8; 32], ChainError>')),
+    'Chain::new_block': note('new_block', lambda c: Opaque('BlockBuilder')), 'chain::Chain::new_block': note('new_block', lambda c: Opaque('BlockBuilder')),
+    'BlockBuilder::add_transactions': lambda c: Opaque('BlockBuilder'), 'BlockBuilder::with_dense_embedding': lambda c: Opaque('BlockBuilder'),
+    'BlockBuilder::with_codes': lambda c: Opaque('BlockBuilder'), 'BlockBuilder::with_state_root': lambda c: Opaque('BlockBuilder'),
+    'BlockBuilder::sign_and_build': lambda c: Opaque('Block'),
+    'Chain::append': note('append', sym_result('append', lambda c: Seq('u8', [Int(z3.BitVecVal(1, 8), False)] * 32), 'Result<[u8; 32], ChainError>')),
+    'chain::Chain::append': note('append', sym_result('append', lambda c: Seq('u8', [Int(z3.BitVecVal(1, 8), False)] * 32), 'Result<[u8; 32], ChainError>')),
+    'Chain::tip_hash': lambda c: Seq('u8', [Int(z3.BitVecVal(2, 8), False)] * 32), 'chain::Chain::tip_hash': lambda c: Seq('u8', [Int(z3.BitVecVal(2, 8), False)] * 32),
+    'Mutex::lock': m_any_mutex_lock, 'RwLock::write': m_any_mutex_lock,
+})
+committed_paths = 0
+st = ex.new_state()
+st.roots['store'] = Struct('TensorStore', {'kv': Map('std::string::String', 'TensorData', [], [])})
+tc = Struct('TensorChain', {}, lazy='TC')
+cfg = tc.load(F('TensorChain', 'config'), 'ChainConfig', st)
+cfg.fields[F('ChainConfig', 'max_txs_per_block')] = Int(U64(100), False)
+am = Struct('AutoMergeConfig', {F('AutoMergeConfig', 'enabled'): z3.BoolVal(False)}, lazy='AM')
+cfg.fields[F('ChainConfig', 'auto_merge')] = am
+ws = Ptr(Cell(val=Struct('TransactionWorkspace', {}, lazy='WS')), 0)
+res = run(st, 'TensorChain::commit', [ref(tc), ref(ws)])
+ck.note_path_problem(res, 'TensorChain::commit')
+for r in res:
+    wit = lambda m: {'chain_op': 'commit_race'}
+    if r.status == 'panic':
+        ck.require(ex, 'B4_commit_is_one_critical_section', r.pc, None, z3.BoolVal(False), wit, lambda m, w: 'commit-panic')
+        continue
+    if r.status != 'return':
+        continue
+    ev = [x for x in r.st.notes if x[0] in ('snapshot', 'apply', 'state_root', 'new_block', 'append', 'restore', 'lock')]
+    kinds = [x[0] for x in ev]
+    if 'snapshot' not in kinds:
+        continue
+    committed_paths += 1
+    crit = [x for x in ev if x[0] in ('snapshot', 'apply', 'state_root', 'new_block', 'append', 'restore')]
+    # one lock held at every critical step, the same one, acquired once before the snapshot
+    common = set(crit[0][1])
+    for x in crit[1:]:
+        common &= set(x[1])
+    first_snapshot = kinds.index('snapshot')
+    one_hold = bool(common) and any(kinds[:first_snapshot].count('lock') >= 1 and [e for e in ev[:first_snapshot] if e[0] == 'lock' and e[1] == n] and [e for e in ev if e[0] == 'lock' and e[1] == n].__len__() == 1 for n in common)
+    is_ok = r.retval.variant == 'Ok'
+    outcome = ('append' in kinds and 'restore' not in kinds) if is_ok else ('restore' in kinds)
+    ck.require(ex, 'B4_commit_is_one_critical_section', r.pc, None, z3.BoolVal(bool(one_hold and outcome)), wit, lambda m, w: 'commit-not-atomic')
+ex.extra_models.clear()
+ex.extra_models.update(b4_saved)
+if committed_paths == 0:
+    ck.inconclusive.append('B4 vacuous: no path of commit took a pre-image')
+
 for v in ck.violations:
+    if v['witness'].get('chain_op') == 'commit_race':
+        rep = Replay.call({'op': 'chain_commit_race'})
+        v['native'] = rep
+        v['replayed'] = rep.get('violates')
+        continue
     rep = Replay.call({'op': 'chain_step', **v['witness']})
     v['native'] = rep
     v['replayed'] = rep.get('violates')
-ck.functions += ['block::merkle_root', 'Chain::append', 'Chain::verify_chain', 'Chain::get_block_at', 'Chain::store_block', 'Chain::save_height', 'Block::verify_chain', 'Block::verify_tx_root', 'chain::block_key']
+ck.functions += ['TensorChain::commit', 'block::merkle_root', 'Chain::append', 'Chain::verify_chain', 'Chain::get_block_at', 'Chain::store_block', 'Chain::save_height', 'Block::verify_chain', 'Block::verify_tx_root', 'chain::block_key']
 if __name__ == '__main__':
     ck.finish()
